@@ -126,7 +126,38 @@ try:
 except Exception:  # pragma: no cover
     np = None
 
+
+
+def _tree_fingerprint() -> str:
+    """Digest of (path, size, mtime) of every source file of the library under test.  The parent
+    only compares runs that saw the same tree: a commit landing in the repository while the
+    matrix is running must not look like an environment dependence."""
+    import hashlib
+    import importlib.util
+    root = None
+    try:
+        spec = importlib.util.find_spec("happysimulator")  # locates the package, does not import it
+        if spec is not None and spec.submodule_search_locations:
+            root = list(spec.submodule_search_locations)[0]
+    except Exception:
+        root = None
+    if root is None:
+        return "unknown"
+    h = hashlib.blake2b(digest_size=8)
+    for dirpath, dirnames, filenames in os.walk(root):
+        dirnames[:] = sorted(d for d in dirnames if d != "__pycache__")
+        for fn in sorted(filenames):
+            if fn.endswith(".py"):
+                st = os.stat(os.path.join(dirpath, fn))
+                h.update(f"{os.path.relpath(os.path.join(dirpath, fn), root)}:{st.st_size}:{st.st_mtime_ns};".encode())
+    return h.hexdigest()
+
+
+TREE_BEFORE = _tree_fingerprint()
 from props import c03_catalogue as cat  # noqa: E402
+import happysimulator  # noqa: E402,F401  (everything the models need is imported by now)
+TREE_AFTER = _tree_fingerprint()
+TREE = TREE_BEFORE if TREE_BEFORE == TREE_AFTER else f"unstable:{TREE_BEFORE}:{TREE_AFTER}"
 
 
 def prior_activity():
@@ -186,7 +217,7 @@ def run_pass(names, seeds, reps, dump, prior_label):
                 finally:
                     _COUNT_ON[0] = False
                 res.update({"model": name, "seed": seed, "rep": rep, "prior": prior_label,
-                            "coupling": dict(COUPLING)})
+                            "coupling": dict(COUPLING), "tree": TREE})
                 out.write(json.dumps(res) + "\n")
                 out.flush()
             if dump and dump[:3] == [name, seed, prior_label]:
